@@ -5,7 +5,7 @@ import ArrModel.Joining
 
 Mirrors `src/math/operations/sum_prod_diff.rs:315-379` (`diff`, `ediff1d`, after the `fix:` commit that validates the axis),
 `src/core/operations/manipulate.rs:238-289` (`insert(indices, values, Some(axis))`, after the `fix:` commits for the axis check, for the
-1-D receiver (delegation to the flat insert) and for a zero-length axis of `values`) and
+1-D receiver (delegation to the flat insert), for a zero-length axis of `values` and for whole slices that cannot be distributed over the insertion points, /repo 34ccd75) and
 `src/math/operations/misc.rs:211-234` (`convolve`).  One Lean arm per Rust arm; the places where the Rust can panic
 (`Vec::remove` / `Vec::insert` outside the vector, `%` and `/` by zero) are `Res.panic`.
 
@@ -174,6 +174,8 @@ def insertAxis (a : Arr α) (zero : α) (indices : List Nat) (values : Arr α) (
         else .ok v) (.ok v0)) >>= fun v1 =>
     (if indices.length > 1 then
         (if v1.len = selfRemLen then v1.repeatAxis zero [indices.length] 0 else .ok v1) >>= fun v2 =>
+        -- `if values.len()? % (self_rem_len * indices.len()) != 0 { return Err(BroadcastShapeMismatch) }` (/repo 34ccd75)
+        if v2.len % (selfRemLen * indices.length) ≠ 0 then .err .BroadcastShapeMismatch else
         v2.moveaxis zero [Int.ofNat axis] [0] >>= fun m =>
         m.ravel.split zero indices.length none
       else .ok [v1]) >>= fun vals =>
